@@ -191,7 +191,9 @@ Deliver(i) ==
   /\ UNCHANGED <<pver, cexp, calls, nconn>>
   /\ LET x == fly[i]
          live == HasProto /\ x.c = p.c /\ ~p.dead
-         pre == <<[e |-> "deliver", c |-> x.c, m |-> x.m, k |-> x.k, gen |-> x.gen, live |-> live, i |-> i]>>
+         (* "genuine" is what an observer can verify: a handshake reply proves knowledge of the key the CLIENT PRESENTED last - a stale reply to an earlier
+            authenticate(good) that arrives after authenticate(bad) was called proves nothing under the credentials now in use *)
+         pre == <<[e |-> "deliver", c |-> x.c, m |-> x.m, k |-> x.k, gen |-> x.gen /\ ~(x.m = "HSR" /\ use = "bad"), live |-> live, i |-> i]>>
          pp == IF live THEN [p EXCEPT !.q = Append(p.q, x)] ELSE p IN
      IF x.m = "NOISE" THEN      \* nothing is queued, nobody is woken: the bytes are skipped when the next start marker arrives (V3Stream!Extract)
           /\ fly' = RemoveAt(fly, i) /\ p' = p /\ evs' = pre
